@@ -169,10 +169,30 @@ def run_sc(programs, max_states=200000, timeout=600):
     return out
 
 
+def run_rc11(programs, mode, timeout=900):
+    """RC11 outcomes (Spec/RC11.lean; mode strong|doc): {prog: (set of outcome strings, status)}"""
+    recs = run_many([DRIVER_BIN, "rc11", mode], programs, timeout)
+    out = {}
+    for p, lines in recs.items():
+        outs = set(l[4:] for l in lines if l.startswith("OUT "))
+        done = [l for l in lines if l.startswith("DONE ")]
+        status = done[-1].split()[-1] if done else "abort"
+        graphs = int(done[-1].split()[2]) if done and done[-1].split()[2].isdigit() else 0
+        out[p] = (outs, status, graphs)
+    return out
+
+
 def verdict_class(term):
     if term.startswith("leak"):
         return "leak"
     return term
+
+
+def outcome_str_rc11(it):
+    """as outcome_str, but a causality panic is just `causality` (no partial returns)"""
+    if it["term"].startswith("causality"):
+        return "causality"
+    return outcome_str(it)
 
 
 def outcome_str(it):
